@@ -41,6 +41,10 @@ pub struct Script {
     #[serde(default)]
     abort_read_after: Option<u16>,
     yields: u8,
+    /// The writer abandons (drops) a flush call that has not completed after this many polls of the runtime and then
+    /// flushes again: bytes that write_all had accepted must not get lost by an abandoned flush.
+    #[serde(default)]
+    impatient_flush: Option<u8>,
 }
 
 #[derive(Debug, Clone, Serialize, Deserialize, Hash)]
@@ -90,6 +94,7 @@ fn gen_script(ch: &mut Choices) -> Script {
         abort_after_chunks: ch.chance(1, 8).then(|| ch.below(n + 1) as u8),
         abort_read_after: ch.chance(1, 6).then(|| ch.pick(&[1u16, 5, 17, 20, 100, 1000])),
         yields: ch.below(4) as u8,
+        impatient_flush: ch.chance(1, 4).then(|| ch.below(6) as u8),
     }
 }
 
@@ -153,6 +158,7 @@ struct Shared {
     party_received: BTreeMap<(usize, bool), Option<u32>>,
     opened_parties: BTreeSet<(usize, bool)>,
     error: Option<String>,
+    abandoned_flushes: u64,
 }
 
 fn fail(sh: &Arc<Mutex<Shared>>, e: String) {
@@ -222,7 +228,22 @@ async fn party(
                     w.write_all(&ctx, &prg_bytes(serial as u64, written as u64, *c as usize)).await?;
                     written += *c as u32;
                     if script.flush_each {
-                        w.flush(&ctx).await?;
+                        if let Some(k) = script.impatient_flush {
+                            let gave_up = tokio::select! {
+                                biased;
+                                r = w.flush(&ctx) => {
+                                    r?;
+                                    false
+                                }
+                                _ = det::yields(1 + k as usize) => true,
+                            };
+                            if gave_up {
+                                sh.lock().unwrap().abandoned_flushes += 1;
+                                w.flush(&ctx).await?;
+                            }
+                        } else {
+                            w.flush(&ctx).await?;
+                        }
                     }
                 }
                 Ok(())
@@ -506,6 +527,10 @@ pub fn check(case: &Case, st: &mut Stats) -> Result<(), String> {
         }
         if !expect_blocked.is_empty() {
             st.class("capability_without_streams");
+        }
+        if g.abandoned_flushes > 0 {
+            st.class("flush_abandoned_and_repeated");
+            st.count("abandoned_flushes", g.abandoned_flushes);
         }
         st.max("max_sessions", case.sessions.len() as u64);
         if concurrent && multi_frame {
